@@ -4,9 +4,21 @@ import CedarVerif.Lemmas.ExtDuration
 import CedarVerif.Lemmas.ExtDatetime
 import CedarVerif.Lemmas.ExtIP
 import CedarVerif.Lemmas.ExtDatetimeParse
+import CedarVerif.Lemmas.ExtDatetimeInv
+import CedarVerif.Lemmas.ExtIPReject
+import CedarVerif.Lemmas.JsonIpV4
+import CedarVerif.Lemmas.JsonIpV6
 /-
 C07 — Extension types (decimal, ip, datetime, duration) compute exact results.
 Property theorems about the mirrors in `Cedar/Ext.lean`.
+Literals: decimal and duration — accepted language and exact value in both directions (`…_some_iff`); datetime — exact
+value on the two declarative forms and, conversely, only those forms are accepted (`datetime_parse_only_lang`);
+ip — the dotted quad with prefix written without leading zeros parses to the expected value (`ip_parse_v4_roundtrip`,
+`ip_parse_display_v4`), and the documented rejections hold in general (leading zero in an octet or in the prefix,
+prefix above the family's width, IPv4-in-IPv6 texts); the canonical `Display` text of every IPv6 value that is not
+IPv4-mapped parses back (`ip_parse_display_v6`), that of an IPv4-mapped one is refused.  Not stated here: a
+both-directions characterisation of all accepted ip texts (non-canonical IPv6 spellings, octet > 255, wrong group counts
+are covered by evaluated instances and the correspondence stream only).
 -/
 namespace Cedar.C07
 open Cedar Cedar.Ext
@@ -466,16 +478,10 @@ example : Datetime.digitsN 4 "1970".toList ∧ Datetime.msWF (some "001".toList)
   refine ⟨by decide +kernel, (show Datetime.digitsN 3 "001".toList by decide +kernel),
     (show Datetime.digitsN 2 "01".toList ∧ Datetime.digitsN 2 "00".toList by decide +kernel), by decide +kernel⟩
 
-/-! ## ip literals (item not proved in general: only the statement and evaluated instances) -/
-
-/-- NOT PROVED (time): dotted-quad/prefix rendering round-trips through `IPAddr.parse` -/
-def FullStatement_ip_parse_v4_roundtrip : Prop :=
-  ∀ a b c d p : Nat, a < 256 → b < 256 → c < 256 → d < 256 → p ≤ 32 →
-    IPAddr.parse (toString a ++ "." ++ toString b ++ "." ++ toString c ++ "." ++ toString d ++ "/" ++ toString p) =
-      some (.ipaddr false (v4addr a b c d) p)
-
-/-- NOT PROVED (time): converse of `datetime_parse_exact(_date)` — every accepted string is one of the two
-    declarative forms -/
+/-- **datetime, only the declarative language is accepted** (converse of `datetime_parse_exact(_date)`): every
+    string accepted by `Datetime.parse` is of one of the two declarative forms; with the two exactness theorems the
+    accepted language and the value of every accepted literal are determined. By inversion on the parser's structure
+    (`Lemmas/ExtDatetimeInv.lean`). -/
 def FullStatement_datetime_parse_only_lang : Prop :=
   ∀ (s : String) (v : Int), Datetime.parse s = some v →
     (∃ ys ms ds, Datetime.digitsN 4 ys ∧ Datetime.digitsN 2 ms ∧ Datetime.digitsN 2 ds ∧
@@ -483,6 +489,125 @@ def FullStatement_datetime_parse_only_lang : Prop :=
     (∃ ys ms ds hs mis ss m3 off, Datetime.digitsN 4 ys ∧ Datetime.digitsN 2 ms ∧ Datetime.digitsN 2 ds ∧
       Datetime.digitsN 2 hs ∧ Datetime.digitsN 2 mis ∧ Datetime.digitsN 2 ss ∧ Datetime.msWF m3 ∧ Datetime.offWF off ∧
       s.toList = Datetime.renderDate ys ms ds (Datetime.renderTime hs mis ss m3 off))
+
+theorem datetime_parse_only_lang : FullStatement_datetime_parse_only_lang :=
+  fun s v h => Datetime.parse_only_lang s v h
+
+/-- strings outside the two declarative forms are rejected -/
+theorem datetime_parse_none_of_not_lang (s : String)
+    (h1 : ¬ ∃ ys ms ds, Datetime.digitsN 4 ys ∧ Datetime.digitsN 2 ms ∧ Datetime.digitsN 2 ds ∧
+      s.toList = Datetime.renderDate ys ms ds [])
+    (h2 : ¬ ∃ ys ms ds hs mis ss m3 off, Datetime.digitsN 4 ys ∧ Datetime.digitsN 2 ms ∧ Datetime.digitsN 2 ds ∧
+      Datetime.digitsN 2 hs ∧ Datetime.digitsN 2 mis ∧ Datetime.digitsN 2 ss ∧ Datetime.msWF m3 ∧ Datetime.offWF off ∧
+      s.toList = Datetime.renderDate ys ms ds (Datetime.renderTime hs mis ss m3 off)) :
+    Datetime.parse s = none := by
+  cases hp : Datetime.parse s with
+  | none => rfl
+  | some v => rcases datetime_parse_only_lang s v hp with h | h <;> contradiction
+
+example : (∃ ys ms ds hs mis ss m3 off, Datetime.digitsN 4 ys ∧ Datetime.digitsN 2 ms ∧ Datetime.digitsN 2 ds ∧
+      Datetime.digitsN 2 hs ∧ Datetime.digitsN 2 mis ∧ Datetime.digitsN 2 ss ∧ Datetime.msWF m3 ∧ Datetime.offWF off ∧
+      "2024-02-29T23:59:59.999+0530".toList = Datetime.renderDate ys ms ds (Datetime.renderTime hs mis ss m3 off)) := by
+  have hp : Datetime.parse "2024-02-29T23:59:59.999+0530" = some 1709231399999 := by decide +kernel
+  rcases datetime_parse_only_lang _ _ hp with ⟨ys, ms, ds, h1, h2, h3, h⟩ | h
+  · exfalso
+    have := congrArg List.length h
+    simp only [Datetime.renderDate, List.length_append, List.length_cons, List.length_nil, h1.2, h2.2, h3.2] at this
+    revert this
+    decide +kernel
+  · exact h
+
+/-! ## ip literals -/
+
+/-- **dotted-quad/prefix rendering round-trips through `IPAddr.parse`**: `a.b.c.d/p` with every octet and the
+    prefix written by `toString` (no leading zeros), octets < 256, prefix ≤ 32 (`Lemmas/JsonIpV4.lean`) -/
+def FullStatement_ip_parse_v4_roundtrip : Prop :=
+  ∀ a b c d p : Nat, a < 256 → b < 256 → c < 256 → d < 256 → p ≤ 32 →
+    IPAddr.parse (toString a ++ "." ++ toString b ++ "." ++ toString c ++ "." ++ toString d ++ "/" ++ toString p) =
+      some (.ipaddr false (v4addr a b c d) p)
+
+theorem ip_parse_v4_roundtrip : FullStatement_ip_parse_v4_roundtrip := by
+  intro a b c d p ha hb hc hd hp
+  have h := CJson.parse_v4Text_prefix a b c d p ha hb hc hd hp
+  have hs : (toString a ++ "." ++ toString b ++ "." ++ toString c ++ "." ++ toString d ++ "/" ++ toString p).toList
+      = CJson.v4Text a b c d ++ '/' :: CJson.decDigits p := by
+    have e1 : (".":String).toList = ['.'] := by decide
+    have e2 : ("/":String).toList = ['/'] := by decide
+    simp only [String.toList_append, CJson.toString_toList, CJson.v4Text, e1, e2, List.append_assoc, List.cons_append,
+      List.nil_append]
+  rw [← String.ofList_toList (s := toString a ++ "." ++ toString b ++ "." ++ toString c ++ "." ++ toString d ++ "/" ++ toString p),
+    hs]
+  exact h
+
+/-- the `Display` text of an IPv4 `IPAddr` value (what `canonical_repr` / `to_string` print) parses back to the
+    same (family, address, prefix), for every 32-bit address and prefix ≤ 32 -/
+theorem ip_parse_display_v4 (addr p : Nat) (ha : addr < 2 ^ 32) (hp : p ≤ 32) :
+    IPAddr.parse (String.ofList (CJson.renderIp false addr p)) = some (.ipaddr false addr p) :=
+  CJson.parse_renderIp_v4 addr p ha hp
+
+/-- the `Display` text of an IPv6 `IPAddr` value — `::` compression of the first longest run of ≥ 2 zero groups,
+    lower-case hex groups without leading zeros, `/prefix` — parses back to the same (family, address, prefix), for
+    every 128-bit address that is not IPv4-mapped and prefix ≤ 128 (`Lemmas/JsonIpV6*.lean`) -/
+theorem ip_parse_display_v6 (addr p : Nat) (ha : addr < 2 ^ 128) (hp : p ≤ 128) (hm : CJson.isV4Mapped addr = false) :
+    IPAddr.parse (String.ofList (CJson.renderIp true addr p)) = some (.ipaddr true addr p) :=
+  CJson.parse_renderIp_v6 addr p ha hp hm
+
+/-- the excluded class: the `Display` text of an IPv4-mapped IPv6 address (`::ffff:a.b.c.d/p`) is refused by `ip()` -/
+theorem ip_parse_display_v6_mapped_rejected (addr p : Nat) (hm : CJson.isV4Mapped addr = true) :
+    IPAddr.parse (String.ofList (CJson.renderIp true addr p)) = none :=
+  CJson.parse_renderIp_v6_mapped addr p hm
+
+example : String.ofList (CJson.renderIp true (0x20010db8 * 2 ^ 96 + 1) 64) = "2001:db8::1/64" ∧
+    IPAddr.parse "2001:db8::1/64" = some (.ipaddr true (0x20010db8 * 2 ^ 96 + 1) 64) :=
+  ⟨by decide +kernel, by
+    have := ip_parse_display_v6 (0x20010db8 * 2 ^ 96 + 1) 64 (by decide) (by decide) (by decide +kernel)
+    have e : String.ofList (CJson.renderIp true (0x20010db8 * 2 ^ 96 + 1) 64) = "2001:db8::1/64" := by decide +kernel
+    rwa [e] at this⟩
+
+example : IPAddr.parse "192.168.0.1/24" = some (.ipaddr false (v4addr 192 168 0 1) 24) :=
+  ip_parse_v4_roundtrip 192 168 0 1 24 (by decide) (by decide) (by decide) (by decide) (by decide)
+
+/-! ### ip literals: rejections (general lemmas in `Lemmas/ExtIPReject.lean`) -/
+
+/-- **an octet with a leading zero**: a dotted text whose some octet (any of the four positions, after the digit
+    strings `pre`) starts `0d…` is rejected, with or without a prefix length.  (The text must contain a '.': without
+    one, `01::` is a valid IPv6 literal.) -/
+theorem ip_octet_leadingZero_rejected (s : String) (pre : List (List Char)) (d : Char) (rest : List Char)
+    (hpre : ∀ o ∈ pre, allDigits o = true) (hlen : pre.length ≤ 3) (hd : isDigit d = true)
+    (hdot : '.' ∈ IPAddr.dotted pre ('0' :: d :: rest)) (hslash : '/' ∉ IPAddr.dotted pre ('0' :: d :: rest)) :
+    (s.toList = IPAddr.dotted pre ('0' :: d :: rest) → IPAddr.parse s = none) ∧
+    (∀ p, s.toList = IPAddr.dotted pre ('0' :: d :: rest) ++ '/' :: p → IPAddr.parse s = none) :=
+  IPAddr.parse_v4_leadingZero s pre d rest hpre hlen hd hdot hslash
+
+/-- **a prefix length with a leading zero** (`a/0d…`) is rejected, whatever the address text and family -/
+theorem ip_prefix_leadingZero_rejected (s : String) (a : List Char) (d : Char) (rest : List Char) (ha : '/' ∉ a)
+    (hs : s.toList = a ++ '/' :: '0' :: d :: rest) : IPAddr.parse s = none :=
+  IPAddr.parse_prefix_leadingZero s a d rest ha hs
+
+/-- **a prefix length above the family's width** (> 32 for an IPv4 address text, > 128 for an IPv6 one; the
+    family is whatever `parseAddr` returns on the address part) is rejected -/
+theorem ip_prefix_tooBig_rejected (s : String) (a p : List Char) (ha : '/' ∉ a) (hs : s.toList = a ++ '/' :: p)
+    (h : ∀ v6 addr, IPAddr.parseAddr a = some (v6, addr) → natOfDigits p > (if v6 = true then 128 else 32)) :
+    IPAddr.parse s = none :=
+  IPAddr.parse_prefix_tooBig s a p ha hs h
+
+/-- **IPv4-in-IPv6**: any text with at least two ':' and at least two '.' is rejected -/
+theorem ip_v4_in_v6_rejected (s : String) (hc : IPAddr.countChar ':' s.toList ≥ 2)
+    (hd : IPAddr.countChar '.' s.toList ≥ 2) : IPAddr.parse s = none :=
+  IPAddr.parse_colonsAndDots s hc hd
+
+example : IPAddr.parse "1.2.03.4/24" = none :=
+  (ip_octet_leadingZero_rejected "1.2.03.4/24" ["1".toList, "2".toList] '3' ".4".toList (by decide +kernel) (by decide)
+    (by decide) (by decide +kernel) (by decide +kernel)).2 "24".toList (by decide +kernel)
+example : IPAddr.parse "1.2.3.4/032" = none :=
+  ip_prefix_leadingZero_rejected _ "1.2.3.4".toList '3' "2".toList (by decide +kernel) (by decide +kernel)
+example : IPAddr.parse "1.2.3.4/33" = none :=
+  IPAddr.parse_prefix_tooBig_v4 _ "1.2.3.4".toList "33".toList 0x01020304 (by decide +kernel) (by decide +kernel)
+    (by decide +kernel) (by decide +kernel)
+example : IPAddr.parse "::1/129" = none :=
+  IPAddr.parse_prefix_tooBig_any _ "::1".toList "129".toList (by decide +kernel) (by decide +kernel) (by decide +kernel)
+example : IPAddr.parse "::ffff:1.2.3.4" = none :=
+  ip_v4_in_v6_rejected _ (by decide +kernel) (by decide +kernel)
 
 -- evaluated instances: round trips, canonical/compressed IPv6, and the documented rejections
 example : IPAddr.parse "192.168.0.1/24" = some (.ipaddr false (v4addr 192 168 0 1) 24) ∧
